@@ -5,6 +5,7 @@ Contains the hardware interface and drivers for the Penny K Pinball PKONE
 platform hardware.
 """
 import asyncio
+import re
 from copy import deepcopy
 from typing import Optional, Dict, List, Tuple, Set
 
@@ -446,6 +447,10 @@ class PKONEHardwarePlatform(SwitchPlatform, DriverPlatform, LightsPlatform, Serv
         # The PSW message contains the following information:
         # [PSW opcode] + [board address id] + switch number + switch state (0 or 1) + E
         self.debug_log("Received switch state change (PSW): %s", msg)
+        if not re.fullmatch(r'[0-7][0-9]{2}[01]', msg):
+            # truncated, overlong or garbled frame: do not guess a switch from it
+            self.log.warning("Ignoring malformed switch state change (PSW) message: %s", msg)
+            return
         switch_number = PKONESwitchNumber(int(msg[0]), int(msg[1:3]))
         switch_state = int(msg[-1])
         self.machine.switch_controller.process_switch_by_num(state=switch_state,
